@@ -85,6 +85,8 @@ def main():
             print(c, "exit", rc, results[c]["lines"])
     finally:
         sh("git -C /repo checkout -- .")
+        # bring the regenerated model parts (coq/gen/*.v) back to the unchanged tree
+        sh("cd %s/bin && python3 -c 'import vlib, gen; vlib.build_harness(); gen.regenerate()'" % ROOT)
     meta["checks_with_patch"] = results
     meta["detected_by"] = [c for c, r in results.items() if r["exit"] == 1]
     d = os.path.join(ROOT, "seeded", name)
